@@ -247,11 +247,13 @@
                    bindings)
             ((lambda (vars vals)
                (if (identifier? (cadr expr))
-                   `((,(rename 'lambda) ,vars
-                      (,(rename 'letrec) ((,(cadr expr)
-                                           (,(rename 'lambda) ,vars
-                                            ,@(cdr (cddr expr)))))
-                       (,(cadr expr) ,@vars)))
+                   ;; R7RS 7.3: the initial values are passed directly to
+                   ;; the procedure, so a loop variable named like the
+                   ;; loop itself is not shadowed by it
+                   `((,(rename 'letrec) ((,(cadr expr)
+                                          (,(rename 'lambda) ,vars
+                                           ,@(cdr (cddr expr)))))
+                      ,(cadr expr))
                      ,@vals)
                    ((lambda (res)
                       (pair-source-set! res (pair-source expr))
